@@ -242,6 +242,9 @@ func c11World(v4, v6 []c11Cand, wild bool, tagged bool) *kit.World {
 	add(ln('.', "example.com", func(l *kit.Line) { l.X = "a" }))
 	add(ln('&', "sub.example.com", func(l *kit.Line) { l.X = "ns.sub.example.com" }))
 	add(ln('@', "example.com", func(l *kit.Line) { l.X = "mail.example.com" }))
+	// the same exchanger a second time (another preference): still one address
+	// per family for that target in the additional section
+	add(ln('@', "example.com", func(l *kit.Line) { l.X = "mail.example.com"; l.N[0] = 20 }))
 	add(ln('+', "zero.example.com", func(l *kit.Line) { l.IP = "192.0.2.200"; l.N[0] = 0 }))
 	add(ln('+', "zero.example.com", func(l *kit.Line) { l.IP = "192.0.2.201"; l.N[0] = 0 }))
 	for i, c := range append(append([]c11Cand{}, v4...), v6...) {
